@@ -111,6 +111,42 @@ ENGINES.update({
     },
 })
 
+INV_LIST = ["TypeOK", "UniqueIds", "RefinesA", "EachOnce", "Converge", "ClockOK", "DupNoop", "ValidateOpOK", "MergeLaws", "Hybrid", "PROPERTY IndexSemantics"]
+INV_MERKLE = ["TypeOK", "RefinesA", "MergeLaws", "Hybrid", "DupNoop", "StaleNoop", "ValidateOpOK", "PROPERTY WriteReplacesHeads"]
+ENGINES.update({
+    "ident": {
+        "harness_engine": "ident", "serves": ["C14", "C13"],
+        "doc": "MC_Ident.tla: every <<low, high, marker>> over a bounded identifier universe as one TLC state; order/density laws on the spec; each case is a test vector for Identifier::cmp/eq/between",
+        "configs": {"quick": [{"cfg": "ident_q.cfg", "module": "MC_Ident.tla", "vectors": True, "invariants": ["OrderOK", "DenseOK"]}],
+                    "thorough": [{"cfg": "ident_q.cfg", "module": "MC_Ident.tla", "vectors": True, "invariants": ["OrderOK", "DenseOK"]},
+                                 {"cfg": "ident_t.cfg", "module": "MC_Ident.tla", "vectors": True, "invariants": ["OrderOK", "DenseOK"], "timeout": 3000}]},
+        "traces": {"quick": [], "thorough": []},
+    },
+    "list": {
+        "harness_engine": "list", "serves": ["C12", "C13", "C01", "C09", "C14", "C16", "C19"],
+        "configs": {"quick": [
+            {"cfg": "list_q2.cfg", "module": "MC_List.tla", "flags": ["--persist"], "invariants": INV_LIST},
+            {"cfg": "list_q3.cfg", "module": "MC_List.tla", "flags": ["--persist"], "invariants": INV_LIST},
+        ], "thorough": []},
+        "traces": {"quick": [], "thorough": []},
+    },
+    "glist": {
+        "harness_engine": "glist", "serves": ["C13", "C01", "C02", "C03", "C08", "C09", "C14", "C19"],
+        "configs": {"quick": [
+            {"cfg": "glist_q2.cfg", "module": "MC_List.tla", "flags": ["--persist", "--laws"], "invariants": INV_LIST},
+        ], "thorough": []},
+        "traces": {"quick": [], "thorough": []},
+    },
+    "merkle": {
+        "harness_engine": "merkle", "serves": ["C15", "C01", "C02", "C03", "C08", "C09", "C16", "C19", "C20"],
+        "configs": {"quick": [
+            {"cfg": "merkle_qh.cfg", "module": "MC_Merkle.tla", "flags": ["--persist", "--laws"], "invariants": INV_MERKLE},
+            {"cfg": "merkle_qa.cfg", "module": "MC_Merkle.tla", "flags": ["--persist", "--laws"], "invariants": INV_MERKLE},
+        ], "thorough": []},
+        "traces": {"quick": [], "thorough": []},
+    },
+})
+
 PROPS = {
     "C01": {}, "C02": {"nontrivial": ["merge_in_path"]}, "C03": {"nontrivial": ["merge_in_path"]},
     "C04": {}, "C05": {}, "C06": {}, "C07": {},
